@@ -137,7 +137,7 @@ impl InflightManager {
 // ---- enqueue: the first caller of a (hash, key) leads under a fresh id and is handed the close flag that the table
 // stores; any later caller of the same key -- and only of that key -- waits on that registration; all other registrations
 // are untouched
-//@region foyer-memory/src/inflight.rs :: impl~InflightManager<E, S, I> where E: Eviction, E::Key: Key/fn enqueue name=enqueue whole=1 sub=@\.entry\((\w+), \|(\w+)\| (.+), \|(\w+)\| (.+)\) \{@.entry(\1, |verif_e: &InflightEntry| -> (r: bool) ensures verif_e.hash == \1 ==> r == (*key == verif_e.key) /* #label the_table_is_probed_by_key_equivalence_not_by_hash */ { let \2 = verif_e; \3 }, |verif_e: &InflightEntry| -> (r: u64) ensures r == verif_e.hash /* #label rehash_closure_returns_the_hash_the_element_was_stored_under */ { let \4 = verif_e; \5 }) {@ sub=@f\.map\(erase_required_fetch_builder\)@verif_erase(f)@
+//@region foyer-memory/src/inflight.rs :: impl~InflightManager<E, S, I> where E: Eviction, E::Key: Key/fn enqueue name=enqueue whole=1 sub=@(?m)\.entry\(([^|]+), \|(\w+)\| (.+), \|(\w+)\| (.+)\)( \{)?$@.entry(\1, |verif_e: &InflightEntry| -> (r: bool) ensures verif_e.hash == \1 ==> r == (*key == verif_e.key) /* #label the_table_is_probed_by_key_equivalence_not_by_hash */ { let \2 = verif_e; \3 }, |verif_e: &InflightEntry| -> (r: u64) ensures r == verif_e.hash /* #label rehash_closure_returns_the_hash_the_element_was_stored_under */ { let \4 = verif_e; \5 })\6@ sub=@f\.map\(erase_required_fetch_builder\)@verif_erase(f)@
 //@head
     pub fn enqueue(&mut self, hash: u64, key: &KeyT, f: Option<BuilderT>) -> (r: Enqueue)
         requires wf(old(self).inflights.v@, old(self).next_id), old(self).next_id < usize::MAX,
@@ -167,7 +167,7 @@ impl InflightManager {
 
 // ---- take: removes the registration of exactly (hash, key) -- with an id, only if it is that leader's --, sets THAT
 // registration's close flag, returns all its waiters; anything else leaves the table and every flag alone
-//@region foyer-memory/src/inflight.rs :: impl~InflightManager<E, S, I> where E: Eviction, E::Key: Key/fn take name=take whole=1 rules=option-map sub=@\.entry\((\w+), \|(\w+)\| (.+), \|(\w+)\| (.+)\) \{@.entry(\1, |verif_e: &InflightEntry| -> (r: bool) ensures verif_e.hash == \1 ==> r == (*key == verif_e.key) /* #label the_table_is_probed_by_key_equivalence_not_by_hash */ { let \2 = verif_e; \3 }, |verif_e: &InflightEntry| -> (r: u64) ensures r == verif_e.hash /* #label rehash_closure_returns_the_hash_the_element_was_stored_under */ { let \4 = verif_e; \5 }) {@ subopt=@(\w+)\.close\.store\(@verif_closed.store(&\1.close, @
+//@region foyer-memory/src/inflight.rs :: impl~InflightManager<E, S, I> where E: Eviction, E::Key: Key/fn take name=take whole=1 rules=option-map sub=@(?m)\.entry\(([^|]+), \|(\w+)\| (.+), \|(\w+)\| (.+)\)( \{)?$@.entry(\1, |verif_e: &InflightEntry| -> (r: bool) ensures verif_e.hash == \1 ==> r == (*key == verif_e.key) /* #label the_table_is_probed_by_key_equivalence_not_by_hash */ { let \2 = verif_e; \3 }, |verif_e: &InflightEntry| -> (r: u64) ensures r == verif_e.hash /* #label rehash_closure_returns_the_hash_the_element_was_stored_under */ { let \4 = verif_e; \5 })\6@ subopt=@(\w+)\.close\.store\(@verif_closed.store(&\1.close, @
 //@head
     pub fn take(&mut self, hash: u64, key: &KeyT, id: Option<usize>, verif_closed: &mut ClosedLog) -> (r: Option<Vec<TxT>>)
         requires wf(old(self).inflights.v@, old(self).next_id),
@@ -184,7 +184,7 @@ impl InflightManager {
 
 // ---- fetch_or_take: only the leader (by id) of exactly (hash, key) gets an answer: a donated fetch closure is handed
 // out once and the registration stays; without one the registration is removed, its flag set, its waiters returned
-//@region foyer-memory/src/inflight.rs :: impl~InflightManager<E, S, I> where E: Eviction, E::Key: Key/fn fetch_or_take name=fetch_or_take whole=1 sub=@\.entry\((\w+), \|(\w+)\| (.+), \|(\w+)\| (.+)\) \{@.entry(\1, |verif_e: &InflightEntry| -> (r: bool) ensures verif_e.hash == \1 ==> r == (*key == verif_e.key) /* #label the_table_is_probed_by_key_equivalence_not_by_hash */ { let \2 = verif_e; \3 }, |verif_e: &InflightEntry| -> (r: u64) ensures r == verif_e.hash /* #label rehash_closure_returns_the_hash_the_element_was_stored_under */ { let \4 = verif_e; \5 }) {@ subopt=@(\w+)\.close\.store\(@verif_closed.store(&\1.close, @ sub=@f\.map\(unerase_required_fetch_builder\)@verif_unerase(f)@
+//@region foyer-memory/src/inflight.rs :: impl~InflightManager<E, S, I> where E: Eviction, E::Key: Key/fn fetch_or_take name=fetch_or_take whole=1 sub=@(?m)\.entry\(([^|]+), \|(\w+)\| (.+), \|(\w+)\| (.+)\)( \{)?$@.entry(\1, |verif_e: &InflightEntry| -> (r: bool) ensures verif_e.hash == \1 ==> r == (*key == verif_e.key) /* #label the_table_is_probed_by_key_equivalence_not_by_hash */ { let \2 = verif_e; \3 }, |verif_e: &InflightEntry| -> (r: u64) ensures r == verif_e.hash /* #label rehash_closure_returns_the_hash_the_element_was_stored_under */ { let \4 = verif_e; \5 })\6@ subopt=@(\w+)\.close\.store\(@verif_closed.store(&\1.close, @ sub=@f\.map\(unerase_required_fetch_builder\)@verif_unerase(f)@
 //@head
     pub fn fetch_or_take(&mut self, hash: u64, key: &KeyT, id: usize, verif_closed: &mut ClosedLog) -> (r: Option<FetchOrTake>)
         requires wf(old(self).inflights.v@, old(self).next_id),
